@@ -2,41 +2,32 @@
 static int bad; static void fail(const char *what){ printf("MISMATCH %s\n", what); bad++; }
 extern int lfunc_0(void); extern void *addr_lfunc_0(void); extern void *l1_addr_lfunc_0(void); int (*volatile fp_lfunc_0)(void) = lfunc_0;
 extern int ldata_1[]; extern const void *addr_ldata_1(void); extern const void *l1_addr_ldata_1(void); extern int read_ldata_1(void); extern int l1_read_ldata_1(void); int *volatile dp_ldata_1 = ldata_1;
-extern int lalias_2; extern void *addr_lalias_2(void); extern int read_lalias_2(void); extern void write_lalias_2(int);
-int efunc_3(void){ return 102; } extern void *l1_addr_efunc_3(void); extern int l1_call_efunc_3(void);
-extern const int ldata_ro_4[]; extern const void *addr_ldata_ro_4(void); extern const void *l1_addr_ldata_ro_4(void); extern int read_ldata_ro_4(void); extern int l1_read_ldata_ro_4(void); const int *volatile dp_ldata_ro_4 = ldata_ro_4;
-extern const int ldata_ro_5[]; extern const void *addr_ldata_ro_5(void); extern const void *l1_addr_ldata_ro_5(void); extern int read_ldata_ro_5(void); extern int l1_read_ldata_ro_5(void); const int *volatile dp_ldata_ro_5 = ldata_ro_5;
-extern int lalias_sw_6; extern void *addr_lalias_sw_6(void); extern void *waddr_lalias_sw_6(void); extern int read_lalias_sw_6(void); extern void write_lalias_sw_6(int);
-extern int lalias_multi_7[]; extern void *addr_lalias_multi_7(void); extern void *waddr_lalias_multi_7(void); extern int read_lalias_multi_7(void); extern void write_lalias_multi_7(int);
+int edata_2[4] = { 72 }; extern void *l1_addr_edata_2(void); extern int l1_read_edata_2(void);
+extern int lfunc_3(void); extern void *addr_lfunc_3(void); extern void *l1_addr_lfunc_3(void); int (*volatile fp_lfunc_3)(void) = lfunc_3;
+extern int lalias_sw_4; extern void *addr_lalias_sw_4(void); extern void *waddr_lalias_sw_4(void); extern int read_lalias_sw_4(void); extern void write_lalias_sw_4(int);
+extern int lalias_multi_5; extern void *addr_lalias_multi_5(void); extern void *waddr_lalias_multi_5(void); extern int read_lalias_multi_5(void); extern void write_lalias_multi_5(int);
 int main(void){
     if ((void*)lfunc_0 != addr_lfunc_0()) fail("lfunc_0: exe vs defining library");
     if ((void*)lfunc_0 != l1_addr_lfunc_0()) fail("lfunc_0: exe vs lib1");
     if ((void*)fp_lfunc_0 != (void*)lfunc_0) fail("lfunc_0: data pointer vs code reference in exe");
-    if (fp_lfunc_0() != 152 || lfunc_0() != 152) fail("lfunc_0: call result");
+    if (fp_lfunc_0() != 119 || lfunc_0() != 119) fail("lfunc_0: call result");
     if ((const void*)ldata_1 != addr_ldata_1()) fail("ldata_1: exe vs defining library");
     if ((const void*)ldata_1 != l1_addr_ldata_1()) fail("ldata_1: exe vs lib1");
     if ((const void*)dp_ldata_1 != (const void*)ldata_1) fail("ldata_1: data pointer vs code reference in exe");
-    if (ldata_1[0] != 64 || read_ldata_1() != 64) fail("ldata_1: initial value");
-    ldata_1[0] = 1064; if (read_ldata_1() != 1064 || l1_read_ldata_1() != 1064) fail("ldata_1: write through exe not seen by library");
-    if ((void*)&lalias_2 != addr_lalias_2()) fail("lalias_2: weak alias in exe vs strong symbol in library");
-    write_lalias_2(207); if (lalias_2 != 207) fail("lalias_2: write through strong symbol not seen through alias");
-    lalias_2 = 209; if (read_lalias_2() != 209) fail("lalias_2: write through alias not seen through strong symbol");
-    if ((void*)efunc_3 != l1_addr_efunc_3()) fail("efunc_3: exe function seen from lib1");
-    if (l1_call_efunc_3() != 102) fail("efunc_3: call from lib1");
-    if ((const void*)ldata_ro_4 != addr_ldata_ro_4()) fail("ldata_ro_4: exe vs defining library");
-    if ((const void*)ldata_ro_4 != l1_addr_ldata_ro_4()) fail("ldata_ro_4: exe vs lib1");
-    if ((const void*)dp_ldata_ro_4 != (const void*)ldata_ro_4) fail("ldata_ro_4: data pointer vs code reference in exe");
-    if (ldata_ro_4[0] != 52 || read_ldata_ro_4() != 52) fail("ldata_ro_4: initial value");
-    if ((const void*)ldata_ro_5 != addr_ldata_ro_5()) fail("ldata_ro_5: exe vs defining library");
-    if ((const void*)ldata_ro_5 != l1_addr_ldata_ro_5()) fail("ldata_ro_5: exe vs lib1");
-    if ((const void*)dp_ldata_ro_5 != (const void*)ldata_ro_5) fail("ldata_ro_5: data pointer vs code reference in exe");
-    if (ldata_ro_5[0] != 196 || read_ldata_ro_5() != 196) fail("ldata_ro_5: initial value");
-    if ((void*)&lalias_sw_6 != addr_lalias_sw_6() || (void*)&lalias_sw_6 != waddr_lalias_sw_6()) fail("lalias_sw_6: symbol in exe vs its alias used by the library");
-    if (lalias_sw_6 != 146 || read_lalias_sw_6() != 146) fail("lalias_sw_6: initial value");
-    lalias_sw_6 = 1146; if (read_lalias_sw_6() != 1146) fail("lalias_sw_6: write in exe not seen by the library through the alias");
-    write_lalias_sw_6(153); if (lalias_sw_6 != 153) fail("lalias_sw_6: write by the library through the alias not seen in exe");
-    if ((void*)lalias_multi_7 != addr_lalias_multi_7() || (void*)lalias_multi_7 != waddr_lalias_multi_7()) fail("lalias_multi_7: symbol in exe vs its alias used by the library");
-    if (lalias_multi_7[0] != 0 || read_lalias_multi_7() != 0) fail("lalias_multi_7: initial value");
-    lalias_multi_7[0] = 1130; if (read_lalias_multi_7() != 1130) fail("lalias_multi_7: write in exe not seen by the library through the alias");
-    write_lalias_multi_7(137); if (lalias_multi_7[0] != 137) fail("lalias_multi_7: write by the library through the alias not seen in exe");
+    if (ldata_1[0] != 175 || read_ldata_1() != 175) fail("ldata_1: initial value");
+    ldata_1[0] = 1175; if (read_ldata_1() != 1175 || l1_read_ldata_1() != 1175) fail("ldata_1: write through exe not seen by library");
+    if ((void*)edata_2 != l1_addr_edata_2()) fail("edata_2: exe data seen from lib1");
+    edata_2[0] = 77; if (l1_read_edata_2() != 77) fail("edata_2: write in exe not seen by lib1");
+    if ((void*)lfunc_3 != addr_lfunc_3()) fail("lfunc_3: exe vs defining library");
+    if ((void*)lfunc_3 != l1_addr_lfunc_3()) fail("lfunc_3: exe vs lib1");
+    if ((void*)fp_lfunc_3 != (void*)lfunc_3) fail("lfunc_3: data pointer vs code reference in exe");
+    if (fp_lfunc_3() != 60 || lfunc_3() != 60) fail("lfunc_3: call result");
+    if ((void*)&lalias_sw_4 != addr_lalias_sw_4() || (void*)&lalias_sw_4 != waddr_lalias_sw_4()) fail("lalias_sw_4: symbol in exe vs its alias used by the library");
+    if (lalias_sw_4 != 27 || read_lalias_sw_4() != 27) fail("lalias_sw_4: initial value");
+    lalias_sw_4 = 1027; if (read_lalias_sw_4() != 1027) fail("lalias_sw_4: write in exe not seen by the library through the alias");
+    write_lalias_sw_4(34); if (lalias_sw_4 != 34) fail("lalias_sw_4: write by the library through the alias not seen in exe");
+    if ((void*)&lalias_multi_5 != addr_lalias_multi_5() || (void*)&lalias_multi_5 != waddr_lalias_multi_5()) fail("lalias_multi_5: symbol in exe vs its alias used by the library");
+    if (lalias_multi_5 != 4 || read_lalias_multi_5() != 4) fail("lalias_multi_5: initial value");
+    lalias_multi_5 = 1004; if (read_lalias_multi_5() != 1004) fail("lalias_multi_5: write in exe not seen by the library through the alias");
+    write_lalias_multi_5(11); if (lalias_multi_5 != 11) fail("lalias_multi_5: write by the library through the alias not seen in exe");
     if (!bad) printf("OK\n"); return bad ? 1 : 0; }
